@@ -1019,6 +1019,18 @@ Proof.
   - destruct (str_eqb k k2); [assumption|auto].
 Qed.
 
+Lemma leaf_resm tm m m2 s a :
+  StoreClone.pres m m2 -> (forall k, In k (map fst (s_types s)) -> alookup k tm <> None) ->
+  leaf m a -> (forall c, In c (member_type m a) -> reg m (s_types s) c) -> resm tm m2 a.
+Proof.
+  intros P Hkeys Ha Hc. unfold leaf in Ha. unfold resm. destruct (mget m a) as [v|] eqn:Hv; [|contradiction].
+  rewrite (P _ _ Hv). destruct v; try contradiction; auto.
+  assert (Hr : reg m (s_types s) (unwrap ty)) by (apply Hc; unfold member_type; rewrite Hv; left; reflexivity).
+  destruct Hr as (nx & Hnx & Hlx). eapply healed_some.
+  - unfold tname in *. destruct (mget m (unwrap ty)) as [w|] eqn:Hw; [|discriminate]. rewrite (P _ _ Hw). exact Hnx.
+  - apply Hkeys. apply in_map_iff. exists (nx, unwrap ty). split; [reflexivity|apply alookup_In; assumption].
+Qed.
+
 (* in a closed, well-sorted schema every reference of every member can be
    re-resolved in any registry that has all the names *)
 Lemma closed_tres tm m m2 s n o :
@@ -1110,15 +1122,222 @@ Proof.
   inversion H; subst. simpl. eapply build_map_nodup; [exact builtin_nodup|exact Hm].
 Qed.
 
+(* ------------------------------------------------ the directive objects *)
+Lemma build_dirs_exact m : forall dirs acc,
+  (forall n d, In (n, d) dirs -> dname m d = Some n) -> NoDup (map fst (acc ++ dirs)) ->
+  build_dirs m (map snd dirs) acc = Ok (acc ++ dirs).
+Proof.
+  induction dirs as [|[n d] dirs IH]; intros acc Hn Hnd; simpl.
+  - rewrite app_nil_r. reflexivity.
+  - rewrite (Hn n d (or_introl eq_refl)).
+    assert (Hno : alookup n acc = None).
+    { destruct (alookup n acc) as [x|] eqn:E; [|reflexivity]. exfalso.
+      rewrite map_app in Hnd. simpl in Hnd. apply NoDup_remove_2 in Hnd. apply Hnd. apply in_or_app. left.
+      apply in_map_iff. exists (n, x). split; [reflexivity|apply alookup_In; exact E]. }
+    rewrite Hno. replace (acc ++ (n, d) :: dirs) with ((acc ++ [(n, d)]) ++ dirs) by (rewrite <- app_assoc; reflexivity).
+    apply IH; [intros n1 d1 Hin; apply Hn; right; exact Hin|]. rewrite <- app_assoc. exact Hnd.
+Qed.
+
+Lemma alookup_aset_same {A} n (y : A) dm : alookup n (aset n y dm) = Some y.
+Proof.
+  induction dm as [|[k v] dm IH]; simpl; [rewrite str_eqb_refl; reflexivity|].
+  destruct (str_eqb_spec n k) as [->|Hne]; simpl; [rewrite str_eqb_refl; reflexivity|].
+  destruct (str_eqb_spec n k); [contradiction|exact IH].
+Qed.
+Lemma alookup_aset_other {A} n n1 (y : A) dm : n <> n1 -> alookup n (aset n1 y dm) = alookup n dm.
+Proof.
+  intros Hne. induction dm as [|[k v] dm IH]; simpl.
+  - destruct (str_eqb_spec n n1); [contradiction|reflexivity].
+  - destruct (str_eqb_spec n1 k) as [->|Hk]; simpl.
+    + destruct (str_eqb_spec n k); [contradiction|reflexivity].
+    + destruct (str_eqb_spec n k); [reflexivity|exact IH].
+Qed.
+Lemma alookup_adel_other {A} n n1 (dm : list (str * A)) : n <> n1 -> alookup n (adel n1 dm) = alookup n dm.
+Proof.
+  intros Hne. induction dm as [|[k v] dm IH]; simpl; [reflexivity|].
+  destruct (str_eqb_spec n1 k) as [->|Hk]; simpl.
+  - destruct (str_eqb_spec n k); [contradiction|reflexivity].
+  - destruct (str_eqb_spec n k); [reflexivity|exact IH].
+Qed.
+
+Lemma replace_dirs_other n : forall du dm dm',
+  (forall r, ~ In (n, r) du) -> replace_dirs du dm = Ok dm' -> alookup n dm' = alookup n dm.
+Proof.
+  induction du as [|[n1 nw] du IH]; intros dm dm' Hno H; simpl in H; [inversion H; reflexivity|].
+  assert (Hne : n <> n1) by (intros ->; apply (Hno nw); left; reflexivity).
+  assert (Hno' : forall r, ~ In (n, r) du) by (intros r Hr; apply (Hno r); right; assumption).
+  destruct nw as [y|].
+  - rewrite (IH _ _ Hno' H). apply alookup_aset_other. exact Hne.
+  - destruct (ahas n1 dm); [|discriminate]. rewrite (IH _ _ Hno' H). apply alookup_adel_other. exact Hne.
+Qed.
+Lemma replace_dirs_lookup n y : forall du dm dm',
+  NoDup (map fst du) -> In (n, Some y) du -> replace_dirs du dm = Ok dm' -> alookup n dm' = Some y.
+Proof.
+  induction du as [|[n1 nw] du IH]; intros dm dm' Hnd Hin H; [destruct Hin|].
+  inversion Hnd as [|? ? Hn1 Hnd']; subst. simpl in H. destruct Hin as [He|Hin].
+  - inversion He; subst n1 nw. rewrite (replace_dirs_other n du _ _ (fun r Hr => Hn1 (in_map fst _ _ Hr)) H).
+    apply alookup_aset_same.
+  - destruct nw as [y1|]; [eapply IH; eauto|]. destruct (ahas n1 dm); [eapply IH; eauto|discriminate].
+Qed.
+
+Section DirCopy.
+Variable n0 : oid.
+Notation cpres := StoreClone.pres.
+
+Definition dcopy (m : mem) (d d' : oid) : Prop :=
+  exists n ds locs args args',
+    mget m d = Some (ODir n ds locs args) /\ mget m d' = Some (ODir n ds locs args') /\ Forall2 (vcopy m) args args'.
+Lemma dcopy_pres m m' d d' : cpres m m' -> dcopy m d d' -> dcopy m' d d'.
+Proof.
+  intros P (n & ds & locs & args & args' & A & B & C). exists n, ds, locs, args, args'.
+  split; [apply P; assumption|]. split; [apply P; assumption|].
+  eapply Forall2_impl; [|exact C]. intros a b. apply vcopy_pres. exact P.
+Qed.
+
+Lemma clone_dir_v m d m' r :
+  gok n0 m -> dir_typed m d -> clone_dir m d = (m', r) -> exists d', r = Some d' /\ dcopy m' d d'.
+Proof.
+  intros Hg Hd H. unfold clone_dir in H. unfold dir_typed in Hd.
+  destruct (mget m d) as [[| | | |n ds locs args]|] eqn:Hv; try contradiction.
+  destruct (copy_all m args) as [m1 args'] eqn:Hc.
+  destruct (copy_all_grow n0 _ _ _ _ Hg Hd Hc) as (G1 & A1).
+  pose proof (copy_all_v n0 _ _ _ _ Hg Hd Hc) as V1.
+  pose proof (gok_grow n0 _ _ Hg G1) as Hg1.
+  unfold alloc in H. inversion H; subst. exists (m_next m1). split; [reflexivity|].
+  pose proof (alloc_pres m1 (ODir n ds locs args') (proj1 Hg1)) as P2. unfold alloc in P2; simpl in P2.
+  exists n, ds, locs, args, args'.
+  split; [apply P2; apply (g_pres _ _ _ G1); assumption|].
+  split; [unfold mget; simpl; rewrite N.eqb_refl; reflexivity|].
+  eapply Forall2_impl; [|exact V1]. intros a b. apply vcopy_pres. exact P2.
+Qed.
+
+Lemma clone_dentries_v : forall l m m' ups,
+  gok n0 m -> (forall n d, In (n, d) l -> dir_typed m d) ->
+  clone_entries clone_dir (fun _ => false) m l = (m', ups) ->
+  (forall n d, In (n, d) l -> exists d', In (n, Some d') ups /\ dcopy m' d d') /\
+  (forall n d', In (n, Some d') ups -> exists d, In (n, d) l /\ dcopy m' d d').
+Proof.
+  induction l as [|[n1 d1] l IH]; intros m m' ups Hg Hl H; simpl in H.
+  - inversion H; subst. split; [intros ? ? []|intros ? ? []].
+  - destruct (clone_dir m d1) as [m1 r] eqn:E1. destruct (clone_entries clone_dir (fun _ => false) m1 l) as [m2 ups'] eqn:E2.
+    inversion H; subst m' ups; clear H.
+    pose proof (Hl n1 d1 (or_introl eq_refl)) as Ht1.
+    destruct (clone_dir_grow n0 _ _ _ _ Hg Ht1 E1) as (G1 & _).
+    pose proof (gok_grow n0 _ _ Hg G1) as Hg1.
+    assert (Hl1 : forall n d, In (n, d) l -> dir_typed m1 d).
+    { intros n d Hin. eapply dir_typed_pres; [exact (g_pres _ _ _ G1)|]. apply (Hl n d). right; exact Hin. }
+    destruct (clone_entries_grow n0 clone_dir (fun _ => false) dir_typed (clone_dir_grow n0)
+                (fun a b o0 Hp => dir_typed_pres a b o0 Hp) _ _ _ _ Hg1 (fun n d Hin _ => Hl1 n d Hin) E2) as (G2 & _).
+    destruct (clone_dir_v _ _ _ _ Hg Ht1 E1) as (d1' & -> & Hc1).
+    destruct (IH _ _ _ Hg1 Hl1 E2) as (A & B). split.
+    + intros n d [He|Hin].
+      * inversion He; subst n d. exists d1'. split; [left; reflexivity|]. eapply dcopy_pres; [exact (g_pres _ _ _ G2)|exact Hc1].
+      * destruct (A n d Hin) as (d' & P & Q). exists d'. split; [right; exact P|exact Q].
+    + intros n d' [He|Hin].
+      * inversion He; subst n d'. exists d1. split; [left; reflexivity|]. eapply dcopy_pres; [exact (g_pres _ _ _ G2)|exact Hc1].
+      * destruct (B n d' Hin) as (d & P & Q). exists d. split; [right; exact P|exact Q].
+Qed.
+End DirCopy.
+
+(* the directive object d' is a clone of d: same name, description,
+   locations; arguments one for one with the same attributes and linked types *)
+Definition dir_cloned tm (m : mem) (d d' : oid) : Prop :=
+  exists n ds locs args args',
+    mget m d = Some (ODir n ds locs args) /\ mget m d' = Some (ODir n ds locs args') /\
+    Forall2 (xcopy m) args args' /\ Forall2 (olink tm m) args args'.
+
+Lemma dcopy_cloned tm m2 mf (S : oid -> Prop) d d' :
+  ext tm m2 mf -> (forall x, S x -> mget mf x = mget m2 x) ->
+  S d -> (forall n ds locs args, mget m2 d = Some (ODir n ds locs args) -> forall a, In a args -> S a) ->
+  dcopy m2 d d' -> dir_cloned tm mf d d'.
+Proof.
+  intros He HS Sd Hargs (n & ds & locs & args & args' & A & B & C).
+  destruct (proj2 He d' _ B) as (v' & Hv' & Hr). destruct v'; simpl in Hr; try contradiction. inversion Hr; subst.
+  exists n, ds, locs, args, args'. split; [rewrite (HS d Sd); exact A|]. split; [exact Hv'|].
+  pose proof (Hargs _ _ _ _ A) as Sa. split.
+  - eapply Forall2_impl_in; [|exact C]. intros a a' Hin Hc. exact (proj1 (vcopy_xcopy tm m2 mf S a a' He HS (Sa a Hin) Hc)).
+  - eapply Forall2_impl_in; [|exact C]. intros a a' Hin Hc. exact (vcopy_olink tm m2 mf S a a' He HS (Sa a Hin) Hc).
+Qed.
+
+(* ------------------------------------------- the structure of the result *)
+Lemma replace_types_keys_eq m : forall ups tm b tm' b',
+  (forall n r, In (n, r) ups -> r <> None) -> replace_types m ups tm b = Ok (tm', b') -> map fst tm' = map fst tm.
+Proof.
+  induction ups as [|[n nw] ups IH]; intros tm b tm' b' Hs H; simpl in H; [inversion H; reflexivity|].
+  assert (Hs' : forall n1 r, In (n1, r) ups -> r <> None) by (intros n1 r Hr; apply (Hs n1 r); right; assumption).
+  destruct (alookup n tm) as [orig|] eqn:Hl; [|eapply IH; eauto].
+  destruct (is_builtin orig); [discriminate|].
+  destruct nw as [y|]; [|exfalso; apply (Hs n None); [left; reflexivity|reflexivity]].
+  destruct (tkind m orig); [|discriminate]. destruct (tkind m y); [|discriminate].
+  destruct (kind_eqb k k0); [|discriminate].
+  rewrite (IH _ _ _ _ Hs' H). apply (aset_keys n y orig tm Hl).
+Qed.
+
+Lemma replace_dirs_keys_eq : forall du dm dm',
+  (forall n r, In (n, r) du -> r <> None /\ In n (map fst dm)) -> replace_dirs du dm = Ok dm' -> map fst dm' = map fst dm.
+Proof.
+  induction du as [|[n nw] du IH]; intros dm dm' Hs H; simpl in H; [inversion H; reflexivity|].
+  destruct (Hs n nw (or_introl eq_refl)) as (Hne & Hin).
+  destruct nw as [y|]; [|congruence].
+  destruct (alookup_exists _ _ Hin) as (v & Hv).
+  assert (Hk : map fst (aset n y dm) = map fst dm) by (apply (aset_keys n y v dm Hv)).
+  rewrite (IH (aset n y dm) dm'); [exact Hk| |exact H].
+  intros n1 r Hr. destruct (Hs n1 r (or_intror Hr)) as (A & B). split; [assumption|]. rewrite Hk. exact B.
+Qed.
+
+Lemma build_roots fuel m q mu su dirs types s0 :
+  build fuel m q mu su dirs types = Ok s0 ->
+  s_query s0 = q /\ s_mut s0 = mu /\ s_sub s0 = su /\ s_poss s0 = [] /\
+  s_impls s0 = fold_left (impls_of_type m) (s_types s0) [].
+Proof.
+  intros H. unfold build in H. destruct (build_dirs m dirs []) as [dm| | |]; simpl in H; try discriminate.
+  match type of H with obind ?x _ = _ => destruct x; simpl in H; try discriminate end.
+  inversion H; subst. simpl. auto.
+Qed.
+
+Lemma heal_from_nodrop_roots tm0 : forall fuel m s m' s',
+  tm0 = s_types s -> fresh_ok m -> wf_reg m tm0 ->
+  (forall n o, In (n, o) tm0 -> is_builtin o = false -> tres tm0 m o) ->
+  heal_from fuel m s = Ok (m', s') ->
+  s_query s' = reroot m' tm0 (s_query s) /\ s_mut s' = reroot m' tm0 (s_mut s) /\ s_sub s' = reroot m' tm0 (s_sub s).
+Proof.
+  intros fuel m s m' s' -> Hf Hwf Hres H. unfold heal_from, traverse in H.
+  destruct (traverse_list (visit_type (heal_visitor (s_types s))) is_builtin m (s_types s)) as [[m1 tu]|] eqn:Ht; [|discriminate].
+  destruct (traverse_list (visit_dir (heal_visitor (s_types s))) (fun _ => false) m1 (s_dirs s)) as [[m2 du]|] eqn:Hd; [|discriminate].
+  assert (Hi : inv (s_types s) m) by (split; [assumption|apply wf_reg_lookup; assumption]).
+  pose proof (traverse_nodrop _ _ _ _ _ Hi Hres Ht) as ->.
+  destruct fuel as [|fuel]; [simpl in H; discriminate|].
+  rewrite replace_and_heal_S in H. simpl in H.
+  destruct (replace_dirs du (s_dirs s)) as [dm| | |]; simpl in H; try discriminate.
+  inversion H; subst. simpl. auto.
+Qed.
+
+Lemma reroot_twice m m' tm r :
+  lookup_ok m' tm -> reroot m' tm (reroot m tm r) = reroot m tm r.
+Proof.
+  intros Hl. destruct r as [o|]; simpl; [|reflexivity]. destruct (tname m o) as [n|]; [|reflexivity].
+  destruct (alookup n tm) as [o'|] eqn:E; [|reflexivity]. simpl. rewrite (Hl _ _ E). exact E.
+Qed.
+
 Theorem clone_preserved fuel m s m' s' :
   fresh_ok m -> builtins_ok m -> closed m s -> wf_schema m s -> wf_builtins s ->
   clone fuel m s = Ok (m', s') ->
   (fresh_ok m' /\ wf_reg m' (s_types s') /\
    (forall n o, In (n, o) (s_types s') -> is_builtin o = false -> exists t, In (n, t) (s_types s) /\ is_builtin t = false) /\
    (forall n o, In (n, o) (s_types s') -> is_builtin o = false -> tres (s_types s') m' o)) /\
-  forall n t, In (n, t) (s_types s) -> is_builtin t = false ->
+  (forall n t, In (n, t) (s_types s) -> is_builtin t = false ->
     exists t', alookup n (s_types s') = Some t' /\ type_cloned m' n t t' /\ type_linked (s_types s') m' t t' /\
-      forall k d ms ifs r ds, mget m t = Some (OType n k d ms ifs r ds) -> IK (s_types s') m' t' ifs.
+      forall k d ms ifs r ds, mget m t = Some (OType n k d ms ifs r ds) -> IK (s_types s') m' t' ifs) /\
+  (forall n d, In (n, d) (s_dirs s) ->
+    exists d', alookup n (s_dirs s') = Some d' /\ dir_cloned (s_types s') m' d d') /\
+  ((exists n o, In (n, o) (s_types s) /\ is_builtin o = false) ->
+   closed m' s' /\
+   (forall s0, build fuel m (s_query s) (s_mut s) (s_sub s) (map snd (s_dirs s)) (map snd (s_types s)) = Ok s0 ->
+      map fst (s_types s') = map fst (s_types s0)) /\
+   map fst (s_dirs s') = map fst (s_dirs s) /\
+   s_query s' = reroot m (s_types s') (s_query s) /\ s_mut s' = reroot m (s_types s') (s_mut s) /\
+   s_sub s' = reroot m (s_types s') (s_sub s) /\
+   s_impls s' = fold_left (impls_of_type m') (s_types s') [] /\ s_poss s' = []).
 Proof.
   intros Hf Hb Hcl Hwf Hbi H.
   destruct (clone_owned _ _ _ _ _ Hf Hb Hcl Hwf Hbi H) as (Fown & _).
@@ -1152,7 +1371,7 @@ Proof.
   pose proof (g_pres _ _ _ G12) as P12.
   destruct (clone_entries_keys _ _ _ _ _ _ (wf_keys _ _ Hwf) Hct) as (Hndu & _).
   destruct fuel as [|fuel]; [simpl in H; discriminate|].
-  rewrite replace_and_heal_S in H.
+  pose proof H as H0. rewrite replace_and_heal_S in H.
   destruct (replace_types m2 tu (s_types s0) false) as [[tm' b]| | |] eqn:Hrt; simpl in H; try discriminate.
   destruct (replace_dirs du (s_dirs s0)) as [dm'| | |] eqn:Hrd; simpl in H; try discriminate.
   assert (Hwf0 : wf_reg m2 (s_types s0)).
@@ -1236,16 +1455,89 @@ Proof.
       apply (tcopy_pres _ _ _ _ _ (g_pres _ _ _ G2)) in Hc.
       eapply tcopy_tres; [exact Hc|]. eapply closed_tres; eauto.
     - exfalso. destruct (K1 n1 o (Hsub0 _ Ho) Hbo) as (y & Hy). exact (Hno _ Hy). }
+  (* the directive objects *)
+  assert (Hd0 : s_dirs s0 = s_dirs s).
+  { clear - Hb0 Hwf. unfold build in Hb0.
+    rewrite (build_dirs_exact m (s_dirs s) [] (wf_dnames _ _ Hwf) (wf_dkeys _ _ Hwf)) in Hb0.
+    unfold obind in Hb0 at 1.
+    match type of Hb0 with obind ?x _ = _ => destruct x; simpl in Hb0; try discriminate end.
+    inversion Hb0; reflexivity. }
+  destruct (clone_dentries_v n0 _ _ _ _ (gok_grow _ _ _ Hgok G1)
+              (fun n1 d1 Hi1 => dir_typed_pres _ _ _ (g_pres _ _ _ G1) (wf_dtyped _ _ Hwf n1 d1 Hi1)) Hcd) as (Dfw & Dbw).
+  destruct (clone_entries_keys _ _ _ _ _ _ (wf_dkeys _ _ Hwf) Hcd) as (Hnddu & _).
+  assert (Hdmain : forall mf, ext tm' m2 mf -> (forall x, S x -> mget mf x = mget m2 x) ->
+            forall n d, In (n, d) (s_dirs s) -> exists d', alookup n dm' = Some d' /\ dir_cloned tm' mf d d').
+  { intros mf Hemf HSmf n d Hin. destruct (Dfw n d Hin) as (d' & Hu & Hc). exists d'.
+    split; [eapply replace_dirs_lookup; eauto|].
+    pose proof (wf_dtyped _ _ Hwf _ _ Hin) as Hdt. unfold dir_typed in Hdt.
+    assert (Sd : S d) by (unfold S; destruct (mget m d); [discriminate|contradiction]).
+    eapply (dcopy_cloned tm' m2 mf S); [exact Hemf|exact HSmf|exact Sd| |exact Hc].
+    intros nd ds locs args Hg2 a Ha. rewrite (HS2 d Sd) in Hg2. rewrite Hg2 in Hdt.
+    rewrite Forall_forall in Hdt. specialize (Hdt a Ha). unfold leaf in Hdt. unfold S.
+    destruct (mget m a); [discriminate|contradiction]. }
+  assert (Hdres : forall n d', In (n, d') dm' -> dres tm' m2 d').
+  { intros n d' Hin.
+    assert (Hnd0 : NoDup (map fst (s_dirs s0))) by (rewrite Hd0; exact (wf_dkeys _ _ Hwf)).
+    destruct (proj2 (replace_dirs_spec _ _ _ Hnd0 Hrd) n d' Hin) as [Hu|[Ho Hno]].
+    - destruct (Dbw n d' Hu) as (d & Hd & (nd & ds & locs & args & args' & A & B & C)).
+      unfold dres. rewrite B.
+      pose proof (wf_dtyped _ _ Hwf _ _ Hd) as Hdt. unfold dir_typed in Hdt.
+      assert (Sd : S d) by (unfold S; destruct (mget m d); [discriminate|contradiction]).
+      rewrite (HS2 d Sd) in A. rewrite A in Hdt.
+      pose proof (cl_dirs _ _ Hcl) as Hdo. rewrite Forall_forall in Hdo. specialize (Hdo _ Hd). simpl in Hdo.
+      unfold dir_ok in Hdo. rewrite Forall_forall in Hdo. unfold dir_args in Hdo. rewrite A in Hdo.
+      assert (Hsrc_args : Forall (resm tm' m2) args).
+      { rewrite Forall_forall in Hdt. apply Forall_forall. intros a Ha.
+        eapply (leaf_resm tm' m m2 s); [exact P12|exact Hkeys|exact (Hdt a Ha)|].
+        intros c Hc. apply Hdo. apply in_flat_map. exists a. split; assumption. }
+      clear - C Hsrc_args. induction C as [|a a' l l' Ha Hl IH]; [constructor|].
+      inversion Hsrc_args; subst. constructor; [eapply vcopy_resm; eauto|auto].
+    - exfalso. rewrite Hd0 in Ho. destruct (K2 n d' Ho eq_refl) as (y & Hy). exact (Hno _ Hy). }
   destruct b.
   - (* the references of the copies are healed; nothing is dropped *)
     match type of H with obind (heal_from fuel m2 ?s1) _ = _ =>
       destruct (heal_from fuel m2 s1) as [[m3 s3]| | |] eqn:Hrec; simpl in H; try discriminate;
-      destruct (heal_from_nodrop tm' fuel m2 s1 m3 s3 eq_refl (g_fresh _ _ _ G12) Hwf' Htres Hrec) as (Hreg3 & He3 & Hf3) end.
-    inversion H; subst m' s'. simpl. rewrite Hreg3.
+      destruct (heal_from_nodrop_full tm' fuel m2 s1 m3 s3 eq_refl (g_fresh _ _ _ G12) Hwf' Htres Hdres Hrec) as (Hreg3 & Hdirs3 & He3 & Hf3 & Hik3);
+      destruct (heal_from_nodrop_roots tm' fuel m2 s1 m3 s3 eq_refl (g_fresh _ _ _ G12) Hwf' Htres Hrec) as (Q3 & M3 & S3) end.
+    inversion H; subst m' s'. cbn [s_types s_dirs s_query s_mut s_sub s_impls s_poss rebuild_caches]. rewrite Hreg3, Hdirs3.
+    cbn [s_types s_dirs s_query s_mut s_sub s_impls s_poss].
+    assert (HS3 : forall x, S x -> mget m3 x = mget m2 x).
+    { intros x Sx. rewrite (HS2 x Sx). unfold S in Sx. destruct (mget m x) as [v|] eqn:Hv; [|congruence].
+      rewrite <- Hv. apply (fr_frame _ _ _ Fown). eapply Hex; eauto. }
     split; [split; [exact Hf3|split; [eapply wf_reg_ext; eauto|split; [exact Hback|]]]|].
     { intros n1 o Hi1 Hbo. eapply tres_ext; [exact He3|]. apply (Htres n1 o Hi1 Hbo). }
-    apply (Hmain m3 He3); [|exact (heal_from_nodrop_IK tm' fuel m2 _ m3 s3 eq_refl (g_fresh _ _ _ G12) Hwf' Htres Hrec)]. intros x Sx. rewrite (HS2 x Sx). unfold S in Sx. destruct (mget m x) as [v|] eqn:Hv; [|congruence].
-    rewrite <- Hv. apply (fr_frame _ _ _ Fown). eapply Hex; eauto.
-  - inversion H; subst m' s'. simpl. split; [split; [exact (g_fresh _ _ _ G12)|split; [exact Hwf'|split; [exact Hback|exact Htres]]]|].
-    apply (Hmain m2 (ext_refl tm' m2)); auto.
+    split; [apply (Hmain m3 He3); [exact HS3|exact Hik3]|]. split; [apply (Hdmain m3 He3 HS3)|].
+    intros _.
+    assert (Hups : forall n1 y, In (n1, Some y) tu -> tname m2 y = Some n1).
+    { intros n1 y Hin1. destruct (clone_entries_v' n0 _ _ _ _ Hgok Hsrc Hct n1 y Hin1) as (o1 & _ & _ & Hc).
+      apply (tcopy_pres _ _ _ _ _ (g_pres _ _ _ G2)) in Hc.
+      destruct Hc as (k & d & ms & ifs & r & ds & ms' & _ & B & _). unfold tname. rewrite B. reflexivity. }
+    assert (Hnd0 : NoDup (map fst (s_dirs s0))) by (rewrite Hd0; exact (wf_dkeys _ _ Hwf)).
+    split; [exact (replace_busted_closed _ _ _ _ _ _ _ _ (g_fresh _ _ _ G12) Hwf0 Hnd0 Hups Hrt H0)|].
+    destruct (build_roots _ _ _ _ _ _ _ _ Hb0) as (Rq & Rm & Rs & _ & _).
+    simpl in Q3, M3, S3.
+    assert (Hl3 : lookup_ok m3 tm') by (apply wf_reg_lookup; eapply wf_reg_ext; eauto).
+    assert (Hroot : forall r, root_ok m (s_types s) r -> reroot m2 tm' r = reroot m tm' r).
+    { intros [o|] Hr; [|reflexivity]. simpl in Hr. destruct Hr as (nm & Hn & _). simpl. rewrite Hn.
+      unfold tname in *. destruct (mget m o) as [v|] eqn:Hv; [|discriminate]. rewrite (P12 _ _ Hv). rewrite Hn. reflexivity. }
+    split.
+    { intros s0' Hb0'. inversion Hb0'; subst s0'.
+      eapply replace_types_keys_eq; [exact N1|exact Hrt]. }
+    split.
+    { rewrite <- Hd0. eapply replace_dirs_keys_eq; [|exact Hrd]. intros n1 r1 Hr1. split; [exact (N2 n1 r1 Hr1)|].
+      rewrite Hd0. destruct (clone_entries_keys _ _ _ _ _ _ (wf_dkeys _ _ Hwf) Hcd) as (_ & Hsub).
+      apply Hsub. apply in_map_iff. exists (n1, r1). split; [reflexivity|exact Hr1]. }
+    split; [rewrite Q3, (reroot_twice m2 m3 tm' _ Hl3), Rq; apply Hroot; exact (cl_query _ _ Hcl)|].
+    split; [rewrite M3, (reroot_twice m2 m3 tm' _ Hl3), Rm; apply Hroot; exact (cl_mut _ _ Hcl)|].
+    split; [rewrite S3, (reroot_twice m2 m3 tm' _ Hl3), Rs; apply Hroot; exact (cl_sub _ _ Hcl)|].
+    split; reflexivity.
+  - inversion H; subst m' s'. cbn [s_types s_dirs s_query s_mut s_sub s_impls s_poss]. split; [split; [exact (g_fresh _ _ _ G12)|split; [exact Hwf'|split; [exact Hback|exact Htres]]]|].
+    split; [apply (Hmain m2 (ext_refl tm' m2)); auto|]. split; [apply (Hdmain m2 (ext_refl tm' m2)); auto|].
+    intros (n1 & o1 & Hin1 & Hbo1). exfalso.
+    destruct (K1 n1 o1 Hin1 Hbo1) as (y & Hy).
+    destruct (replace_types_unbusted _ _ _ _ _ Hrt) as (_ & _ & Hall).
+    pose proof (Hall n1 (Some y) o1 Hy (Hreg0 n1 o1 Hin1)) as He. inversion He; subst y.
+    pose proof (U1 n1 o1 Hy) as Hge.
+    pose proof (wf_names _ _ Hwf _ _ Hin1) as Hn1. unfold tname in Hn1.
+    destruct (mget m o1) as [v|] eqn:Hv; [|discriminate]. pose proof (Hex _ _ Hv). lia.
 Qed.
